@@ -29,6 +29,22 @@ LEVEL_NOTE = ("Trusted: the interpreter's model of Python attribute lookup, clas
               "real tables.  Known findings (documented in DESIGN.md section 6) are listed in known_findings.json by group / construct.")
 
 
+def _two_grammars(ctx, I3, w3, TB, pf3, texts, syms):
+    rr4 = raises(lambda: [I3.call(pf3, [t_], {"table": tb_}) for tb_ in (w3.table, TB) for t_ in texts])
+    if rr4 is not None:
+        ctx.fail("R4", "strings parsed for T after a grammar for another table was built hold T's atoms", f"parsing raises {rr4}", fsite(ctx, "formulas.formula_grammar"))
+    else:
+        for t_ in texts:
+            for tb_, nm_ in ((w3.table, "T"), (TB, "the second table"), (w3.table, "T again")):
+                p_ = I3.call(pf3, [t_], {"table": tb_})
+                want_ = {id(I3.heap[tb_.id].get(s_)) for s_ in syms[t_]}
+                got_ = I3.getattr(p_, "atoms")
+                ctx.check(isinstance(got_, dict) and set(map(id, got_)) == want_, "R4",
+                          f"{t_!r} parsed for {nm_} (grammars of two tables alive) holds that table's own atoms",
+                          f"atoms {sorted(map(repr, got_)) if isinstance(got_, dict) else got_} are not all atoms of the table asked for: part of the grammar is shared between tables",
+                          fsite(ctx, "formulas.formula_grammar"), witness=t_)
+
+
 def run(ctx):
     lw = LazyWorld(ctx.src)
     I = lw.I
@@ -193,6 +209,20 @@ def run(ctx):
         ctx.check(isinstance(got3, dict) and set(map(id, got3)) == own, "R4", "formula_grammar resolves symbols only through its table parameter",
                   f"atoms {sorted(map(repr, got3)) if isinstance(got3, dict) else got3} are not the atoms of the table the grammar was built for",
                   fsite(ctx, "formulas.formula_grammar"))
+    # ... also after a grammar for another table was built in between (nothing of a grammar is shared between tables): a plain
+    # compound, a mixture by weight, a nested mixture and a grouped compound are parsed for T, then for a second table, then
+    # again for T
+    TB = I3.instantiate(I3.get_class("core.PeriodicTable"), ["second"], {}, name="TB", open_attrs=())
+    pf3 = I3.global_name("formulas", "parse_formula")
+    texts = ("Fe2O3", "5wt% NaCl // H2O@1", "20wt% (10wt% NaCl@2 // H2O@1) // Fe2O3@5", "Ca(OH)2")
+    syms = {"Fe2O3": ("Fe", "O"), "5wt% NaCl // H2O@1": ("Na", "Cl", "H", "O"), "20wt% (10wt% NaCl@2 // H2O@1) // Fe2O3@5": ("Na", "Cl", "H", "O", "Fe"),
+            "Ca(OH)2": ("Ca", "O", "H")}
+    from ptstat import symval as _sv
+    _sv.OPTIONS["unit_groups"] = True          # only which atoms appear matters here, never nesting
+    try:
+        _two_grammars(ctx, I3, w3, TB, pf3, texts, syms)
+    finally:
+        _sv.OPTIONS["unit_groups"] = False
     # the sequence prefix route
     f = ctx.src.func("formulas.formula")
     seq_calls = [n for n in ast.walk(f.node) if isinstance(n, ast.Call) and ast.unparse(n.func).endswith("Sequence")]
@@ -211,7 +241,7 @@ def run(ctx):
                 if any(k.arg == "table" for k in n.keywords) or any(k.arg is None for k in n.keywords):
                     ok = True
         ctx.check(ok, "R4", f"{qual.split('.')[1]} passes table= to formula()", "table is dropped", fsite(ctx, qual))
-    ctx.floor("R4", 7)
+    ctx.floor("R4", 19)
     # building one table leaves the module-level element data as it was: the next table gets the same elements
     wa = world(ctx)
     Ia = wa.I
